@@ -32,6 +32,26 @@ def bloom_fp_oracle(tier, seed, tracegen, sh):
     return {"report": {"kind": "implementation-vs-oracle test (not a proof)", "rows": rows}, "failures": failures, "gen": gen}
 
 
+def live_oracle(prop, scenarios, rounds_quick=300, rounds_thorough=3000):
+    """implementation-vs-oracle tests on real threads (mode B); never a proof"""
+    def run(tier, seed, tracegen, sh):
+        failures, rows = [], []
+        gen = None
+        for sc in scenarios:
+            rounds = rounds_quick if tier == "quick" else rounds_thorough
+            gen = ["live", "--scenario", sc, "--rounds", str(rounds), "--seed", str(seed)]
+            rc, out = sh([tracegen] + gen, timeout=600)
+            m = re.search(r"live scenario=(\S+) rounds=(\d+) violations=(\d+) detail=(\S+)", out)
+            if not m:
+                failures.append(f"MONITOR-FAIL property={prop} live scenario {sc} produced no result (rc={rc}): {out[-200:]}")
+                continue
+            rows.append({"scenario": m[1], "rounds": int(m[2]), "violations": int(m[3])})
+            if int(m[3]) > 0:
+                failures.append(f"MONITOR-FAIL property={prop} live scenario {sc}: {m[4].replace('_', ' ')} [tracegen {' '.join(gen)}]")
+        return {"report": {"kind": "implementation-vs-oracle test on real threads (not a proof)", "rows": rows}, "failures": failures, "gen": gen}
+    return run
+
+
 def policy_job(fields):
     return {"name": "policy", "driver": "policy", "fields": fields,
             "gen": lambda tier, seed: ["policy", "--seed", str(seed), "--ops", "300" if tier == "quick" else "1500",
@@ -72,6 +92,18 @@ PROPS = {
         "assumptions": CACHE_ASSUME + ["the tick period (crossbeam tick / async-io Timer) is environment: ticks are placed by the schedule, with a virtual nanosecond clock",
                                        "that every resident TTL entry is filed in the bucket of its deadline is checked after every step by comparing the bucket snapshot with the model and by the sweep-completeness monitor; a Lean proof of that bucket invariant is not part of this check yet"],
     },
+    # --- not yet claimed in MANIFEST (theorem modules pending): correspondence + monitors only ---
+    "C02": {"module": None, "jobs": [cache_job(r"\.(store|ret|callbacks|buffer|clear)$", extra=["--collisions", "1", "--w-clear", "5"])], "assumptions": CACHE_ASSUME},
+    "C04": {"module": None, "jobs": [cache_job(r"\.(store|expiry|policy|ret|callbacks|buffer|len)$", extra=["--w-ttl", "50"])], "assumptions": CACHE_ASSUME},
+    "C06": {"module": None, "jobs": [cache_job(r"\.(store|policy|callbacks|len|buffer)$", extra=["--collisions", "1"]), cache_job(r"\.(store|policy|callbacks|len|buffer)$", name="cache-plain")], "assumptions": CACHE_ASSUME},
+    "C08": {"module": None, "jobs": [cache_job(r"\.(store|callbacks|buffer|ret)$", extra=["--collisions", "1"]), cache_job(r"\.(store|callbacks|buffer|ret)$", name="cache-plain", extra=["--w-clear", "5"])], "assumptions": CACHE_ASSUME},
+    "C10": {"module": None, "jobs": [cache_job(r"\.(buffer|ret|wait|clear|close|closed)$", extra=["--w-wait", "10", "--w-close", "3", "--w-clear", "5"])],
+            "oracles": [{"name": "live-barrier", "run": live_oracle("C10", ["barrier", "protocol_storm"])}], "assumptions": CACHE_ASSUME},
+    "C15": {"module": None, "jobs": [cache_job(r"\.(ring|metrics|ret|batch)$")], "assumptions": CACHE_ASSUME},
+    "C17": {"module": None, "jobs": [cache_job(r"\.(metrics|life|policy|ret)$", extra=["--w-clear", "4"])], "assumptions": CACHE_ASSUME},
+    "C18": {"module": None, "jobs": [cache_job(r"\.(store|ret|callbacks)$", extra=["--collisions", "1"])], "assumptions": CACHE_ASSUME},
+    "C20": {"module": None, "jobs": [cache_job(r".*")],
+            "oracles": [{"name": "live-completion", "run": live_oracle("C20", ["ttl_mix", "protocol_storm"])}], "assumptions": CACHE_ASSUME},
     "C09": {
         "module": "StrettoModel.Props.C09",
         "jobs": [cache_job(r"\.(store|expiry|ret|callbacks|buffer)$", extra=["--w-ttl", "50"])],
@@ -87,6 +119,7 @@ PROPS = {
     "C12": {
         "module": "StrettoModel.Props.C12",
         "jobs": [cache_job(r"\.(closed|ret|buffer|store|policy|close|wait|clear)$", extra=["--w-close", "4", "--w-wait", "5"], quick_lives=30)],
+        "oracles": [{"name": "live-close", "run": live_oracle("C12", ["close_race", "workers_exit", "protocol_storm"])}],
         "branches": ["close.blocked", "close.ok", "p.stop", "w.stop", "ret.close", "insert.closed", "get.closed", "remove.closed", "wait.ok", "clear.ok.buf0"],
         "assumptions": CACHE_ASSUME + ["that the OS threads of the workers are gone after close()/drop is observed by the live-mode job, not proved"],
     },
